@@ -399,7 +399,7 @@ pub fn run(ctx: &Ctx, rep: &mut Report) {
         check_case,
     );
 
-    let n = ctx.cases(60_000, 800_000);
+    let n = ctx.cases(200_000, 2_000_000);
     run_prop(
         ctx,
         rep,
